@@ -305,5 +305,8 @@ UNITS.append(Unit("C14", "jsonargparse._typehints:subclass_spec_as_namespace", s
                   trusted=["NestedArg(key, val) unpacks as (key, val)", "Namespace(mapping) / Namespace(**kw) build a namespace with those items"]))
 
 
-from contracts.any_units import adapt_classes_any_unit, is_subclass_spec_unit, parse_argv_item_unit  # noqa: E402
-UNITS += [adapt_classes_any_unit("C14"), is_subclass_spec_unit("C14"), parse_argv_item_unit("C14")]
+from contracts.any_units import adapt_classes_any_unit, add_subclasses_unit, is_subclass_spec_unit, parse_argv_item_unit  # noqa: E402
+UNITS += [adapt_classes_any_unit("C14"), is_subclass_spec_unit("C14"), parse_argv_item_unit("C14"), add_subclasses_unit("C14")]
+
+from contracts.discard_walk import discard_walk_unit  # noqa: E402
+UNITS.append(discard_walk_unit("C14"))
